@@ -193,7 +193,7 @@ var errC16Do = errors.New("c16: wrapped function failed")
 type c16Observation struct{}
 
 func (c16Observation) Cancel(context.Context, ...message.Option) error { return nil }
-func (c16Observation) Canceled() bool                                   { return false }
+func (c16Observation) Canceled() bool                                  { return false }
 
 // requests with id%3 == 2 go through DoObserve (same limiter calls, other wrapped function)
 func (h *c16Run) c16doObserve(req *pool.Message, _ func(req *pool.Message)) (limitparallelrequests.Observation, error) {
